@@ -136,7 +136,7 @@ def generate_source_code(docstring, parsed):
                 visit(rules, _set_skip_ignored)
 
     _assign_ids(rules)
-    _update_local_references(rules)
+    _update_local_references(rules, _rule_names(rules, parsed.extends))
     _update_rule_references(rules, parsed.extends)
 
     if start_rule is not None:
@@ -319,7 +319,7 @@ def _assign_ids(rules):
     visit(rules, assign_id)
 
 
-def _update_local_references(rules):
+def _update_local_references(rules, rule_names):
     counter = ex.SymbolCounter()
 
     def previsit(node):
@@ -328,6 +328,14 @@ def _update_local_references(rules):
         counter.previsit(node)
         if node.is_reference and counter.is_bound(node.name):
             node.is_local = True
+        # A field of the enclosing class that has been parsed already, unless
+        # the name is a rule: the value of the field (say, as an argument).
+        elif (
+            node.is_reference
+            and counter.is_variable(node.name)
+            and node.name not in rule_names
+        ):
+            node.is_local = True
         mentioned = [x for x in node.mentioned_names() if counter.is_variable(x)]
         if mentioned:
             node.local_names = mentioned
@@ -335,7 +343,7 @@ def _update_local_references(rules):
     visit(rules, previsit, counter.postvisit)
 
 
-def _update_rule_references(rules, extends):
+def _rule_names(rules, extends):
     rule_names = set()
     for rule in rules:
         if isinstance(rule, (ex.Class, ex.Rule)):
@@ -347,6 +355,12 @@ def _update_rule_references(rules, extends):
             if hasattr(stmt, 'name'):
                 rule_names.add(stmt.name)
         extends = extends.extends
+
+    return rule_names
+
+
+def _update_rule_references(rules, extends):
+    rule_names = _rule_names(rules, extends)
 
     def check_refs(node):
         if isinstance(node, Ref) and node.name in rule_names and not node.is_local:
